@@ -4,3 +4,9 @@ mod multinomial;
 pub mod vanilla;
 
 pub use data::RegretParams;
+
+#[cfg(feature = "verif-hooks")]
+pub(crate) fn verif_multinomial_sample(probs: &[f64], rng: &mut impl rand::Rng) -> usize {
+    use rand_distr::Distribution;
+    multinomial::Multinomial::new(probs).sample(rng)
+}
